@@ -277,6 +277,103 @@ theorem roundtrip_sample_chain (cv : List Int) (valids : List Bool) (hwf : WF cv
   rw [cycleOf_eq valids k j h2]
   exact (mem_whereEq cv k i).mpr h1
 
+/-! ## exactness: a back map returns EXACTLY the items whose forward map is its argument
+
+The round trips above give one inclusion (`i ∈ back (forward i)`); the theorems below are the full
+characterisation `x ∈ back y ↔ forward x = y`, so the back maps contain nothing else. -/
+
+/-- the samples of cycle k are exactly the samples whose cycle is k (any label vector) -/
+theorem exact_cycle_to_samples (cv : List Int) (k i : Nat) :
+    i ∈ mapCycleToSamples cv k ↔ mapSampleToCycle cv i = .ok (some k) :=
+  (mem_whereEq cv k i).trans (lookupLabel_some cv i k).symm
+
+/-- …in terms of the label vector itself: `i ∈ map_cycle_to_samples(cv, k) ↔ cv[i] = k` -/
+theorem exact_cycle_to_samples_label (cv : List Int) (k i : Nat) :
+    i ∈ mapCycleToSamples cv k ↔ cv[i]? = some (k : Int) := mem_whereEq cv k i
+
+/-- the cycles of subset index j are exactly the cycles whose subset index is j: `c ∈ … ↔ sv[c] = j` -/
+theorem exact_subset_to_cycle (sv : List Int) (j k : Nat) :
+    (k ∈ mapSubsetToCycle sv j ↔ mapCycleToSubset sv k = .ok (some j)) ∧
+    (k ∈ mapSubsetToCycle sv j ↔ sv[k]? = some (j : Int)) :=
+  ⟨(mem_whereEq sv j k).trans (lookupLabel_some sv k j).symm, mem_whereEq sv j k⟩
+
+/-- the subset cycles of chain c are exactly those whose chain is c -/
+theorem exact_chain_to_subset (ch : List Int) (c j : Nat) :
+    j ∈ mapChainToSubset ch c ↔ mapSubsetToChain ch j = .ok (c : Int) := by
+  refine (mem_whereEq ch c j).trans ?_
+  unfold mapSubsetToChain
+  cases ch[j]? with
+  | none => simp
+  | some l => simp
+
+/-- the samples of subset cycle j (an existing one) are exactly the samples whose subset cycle is j -/
+theorem exact_subset_to_sample (cv : List Int) (valids : List Bool) (j : Nat) (hj : j < valids.count true) :
+    ∃ s, mapSubsetToSample (subsetVector valids) cv j = .ok s ∧
+      ∀ i, i ∈ s ↔ mapSampleToSubset (subsetVector valids) cv i = .ok (some j) := by
+  refine ⟨mapCycleToSamples cv (cycleOf (subsetVector valids) j), ?_, ?_⟩
+  · unfold mapSubsetToSample mapSubsetToCycle
+    rw [subset_singleton valids j hj]
+  · intro i
+    rw [exact_cycle_to_samples_label, sampleToSubset_some]
+    constructor
+    · intro h; exact ⟨_, h, subset_cycleOf valids j hj⟩
+    · rintro ⟨k, h1, h2⟩
+      rw [cycleOf_eq valids k j h2]; exact h1
+
+/-- the cycles of chain c are exactly the cycles whose chain is c -/
+theorem exact_chain_to_cycle (valids : List Bool) (c : Nat) :
+    ∃ ks, mapChainToCycle (chainVector (subsetVector valids)) (subsetVector valids) c = .ok ks ∧
+      ∀ k, k ∈ ks ↔ mapCycleToChain (chainVector (subsetVector valids)) (subsetVector valids) k = .ok (some (c : Int)) := by
+  refine ⟨_, total_chain_to_cycle valids c, ?_⟩
+  intro k
+  rw [cycleToChain_some, List.mem_map]
+  constructor
+  · rintro ⟨j, hj, rfl⟩
+    have hlt := whereEq_lt _ c j hj
+    rw [chainVector_length] at hlt
+    exact ⟨j, subset_cycleOf valids j hlt, (mem_whereEq _ c j).mp hj⟩
+  · rintro ⟨j, h1, h2⟩
+    exact ⟨j, (mem_whereEq _ c j).mpr h2, cycleOf_eq valids k j h1⟩
+
+/-- the samples of chain c (an existing one) are exactly the samples whose chain is c:
+    `i ∈ map_chain_to_samples(…, c) ↔ map_sample_to_chain(…, i) = c` -/
+theorem exact_chain_to_samples (cv : List Int) (valids : List Bool) (hwf : WF cv valids.length)
+    (c : Nat) (hc : c < nLabels (chainVector (subsetVector valids))) :
+    ∃ s, mapChainToSamples (chainVector (subsetVector valids)) (subsetVector valids) cv c = .ok s ∧
+      ∀ i, i ∈ s ↔
+        mapSampleToChain (chainVector (subsetVector valids)) (subsetVector valids) cv i = .ok (some (c : Int)) := by
+  obtain ⟨s, hs, heq, _⟩ := total_chain_to_samples cv valids hwf c hc
+  refine ⟨s, hs, ?_⟩
+  intro i
+  rw [heq, sampleToChain_some, List.mem_flatMap]
+  constructor
+  · rintro ⟨j, hj, hi⟩
+    have hlt := whereEq_lt _ c j hj
+    rw [chainVector_length] at hlt
+    exact ⟨_, j, (mem_whereEq cv _ i).mp hi, subset_cycleOf valids j hlt, (mem_whereEq _ c j).mp hj⟩
+  · rintro ⟨k, j, h1, h2, h3⟩
+    refine ⟨j, (mem_whereEq _ c j).mpr h3, ?_⟩
+    rw [cycleOf_eq valids k j h2]
+    exact (mem_whereEq cv k i).mpr h1
+
+/-- converse round trips: every item a back map returns maps forward to the argument -/
+theorem roundtrip_back_forth (cv : List Int) (valids : List Bool) (hwf : WF cv valids.length) :
+    (∀ k, ∀ i ∈ mapCycleToSamples cv k, mapSampleToCycle cv i = .ok (some k)) ∧
+    (∀ j, ∀ k ∈ mapSubsetToCycle (subsetVector valids) j, mapCycleToSubset (subsetVector valids) k = .ok (some j)) ∧
+    (∀ c, ∀ j ∈ mapChainToSubset (chainVector (subsetVector valids)) c,
+      mapSubsetToChain (chainVector (subsetVector valids)) j = .ok (c : Int)) ∧
+    (∀ c, c < nLabels (chainVector (subsetVector valids)) → ∀ s,
+      mapChainToSamples (chainVector (subsetVector valids)) (subsetVector valids) cv c = .ok s → ∀ i ∈ s,
+        mapSampleToChain (chainVector (subsetVector valids)) (subsetVector valids) cv i = .ok (some (c : Int))) := by
+  refine ⟨fun k i hi => (exact_cycle_to_samples cv k i).mp hi, fun j k hk => (exact_subset_to_cycle _ j k).1.mp hk,
+    fun c j hj => (exact_chain_to_subset _ c j).mp hj, ?_⟩
+  intro c hc s hs i hi
+  obtain ⟨s', hs', h⟩ := exact_chain_to_samples cv valids hwf c hc
+  rw [hs] at hs'
+  injection hs' with hs'
+  subst hs'
+  exact (h i).mp hi
+
 /-! ## the forward maps answer `none` exactly for unlabelled samples and unselected cycles -/
 
 theorem none_iff_sample_to_cycle (cv : List Int) (K : Nat) (hwf : WF cv K) (i : Nat) :
@@ -497,6 +594,8 @@ example : mapChainToSamples (chainVector (subsetVector validsEx)) (subsetVector 
 example : mapSampleToSubset (subsetVector validsEx) cvEx 4 = .ok none := rfl
 example : mapSampleToSubset (subsetVector validsEx) cvEx 0 = .ok none := rfl
 example : mapChainToCycle (chainVector (subsetVector validsEx)) (subsetVector validsEx) 0 = .ok [0] := rfl
+example := exact_chain_to_samples cvEx validsEx (wf_of_bounded cvEx 3 (by decide) (by decide) (by decide) (by decide)) 1 (by decide)
+example := exact_subset_to_sample cvEx validsEx 1 (by decide)
 
 
 -- the hypothesis `WF` is met by an output of the cycle detector's model (C12): three cycles, all labelled
